@@ -74,11 +74,16 @@ def check_integrate(L, s, seed=0, method='trapz'):
 class EditHooks(Hooks):
     def __init__(self):
         self.pre = None
+        self.others = None
         self.bad = set()
 
     def before(self, it, i, ev):
         self.pre = None
         fn = ev['fn']
+        self.others = None
+        if fn in EDITS or fn in ('Spectrum.sample', 'Spectrum.integrate', 'Spectrum.bin'):
+            tgt = ev['a'][0][1:] if isinstance(ev['a'][0], str) else None
+            self.others = {k: it.dig(v) for k, v in it.store.items() if k != tgt}
         if fn.startswith('Spectrum.') and ev.get('a'):
             tgt = it.resolve(ev['a'][0])
             if not wellformed_obj(tgt)[0]:
@@ -112,6 +117,15 @@ class EditHooks(Hooks):
         if tag.get('reasked'):
             it.fault('dup')
             it.probe('query_repeated_after_edit')
+        if self.others is not None:
+            it.probe('check:bystanders')
+            for k, d in self.others.items():
+                if k in it.store and k != ev.get('id') and it.dig(it.store[k]) != d:
+                    if k.endswith(('_twin', '_x2', '_w', '_v')):
+                        it.probe('shared_buffer_bystander')
+                    it.violate('C15.retain', {'call': fn, 'what': 'bystander-changed', 'kind': type(it.store[k]).__name__},
+                               '%s on one spectrum changed %s %s, which was not its target' % (fn, type(it.store[k]).__name__, k), i)
+                    break
         if fn in EDITS and not out.ok:
             it.fault('refuse')
             it.probe('refused:' + fn.split('.')[1])
@@ -371,7 +385,7 @@ class SpectrumEditScenario(Scenario):
                    'scipy.integrate.simpson is trusted as the reference for Simpson totals']
     must_hit = ['refused:resample', 'refused:append', 'crop:at-sample', 'crop:between', 'pad:inside', 'pad:outside',
                 'bin:trapz/symmetric/pp', 'bin:trapz/inside/raw', 'bin:simps/symmetric/raw', 'bin:simps/inside/pp',
-                'bin_linear_exact', 'bin_power', 'nonuniform_grid', 'idem', 'query_repeated_after_edit']
+                'bin_linear_exact', 'bin_power', 'nonuniform_grid', 'idem', 'query_repeated_after_edit', 'shared_buffers']
     probe_names = must_hit + ['coldwarm_audit', 'refused:to', 'refused:pad', 'refused:trim', 'refused:crop']
 
     def make_fns(self):
@@ -412,7 +426,16 @@ class SpectrumEditScenario(Scenario):
             if max(value) <= 0:
                 value[n // 2] = 0.7
         vunit = rng.choice([None, None, 'photlam', 'wlam'])
-        events.append({'c': c, 'fn': 'Spectrum', 'id': sid, 'a': [wave, value], 'k': {'waveunit': unit, 'valueunit': vunit}})
+        if force.get('shared') or rng.random() < 0.35:
+            # F8: the caller keeps its own ndarrays and builds TWO spectra on them; an edit of one must not reach the
+            # other spectrum nor the caller's arrays
+            events.append({'c': c, 'fn': 'array', 'id': sid + '_w', 'recipe': {'kind': 'list', 'values': wave}})
+            events.append({'c': c, 'fn': 'array', 'id': sid + '_v', 'recipe': {'kind': 'list', 'values': value}})
+            events.append({'c': c, 'fn': 'Spectrum', 'id': sid, 'a': ['@' + sid + '_w', '@' + sid + '_v'], 'k': {'waveunit': unit, 'valueunit': vunit}})
+            events.append({'c': c, 'fn': 'Spectrum', 'id': sid + '_twin', 'a': ['@' + sid + '_w', '@' + sid + '_v'], 'k': {'waveunit': unit, 'valueunit': vunit}})
+            events.append({'c': c, 'fn': 's*', 'id': sid + '_x2', 'a': ['@' + sid, 2.0]})
+        else:
+            events.append({'c': c, 'fn': 'Spectrum', 'id': sid, 'a': [wave, value], 'k': {'waveunit': unit, 'valueunit': vunit}})
         m = MS(wave, value, unit, vunit)
         m.lin = lin
         m.uniform = uniform
@@ -697,7 +720,7 @@ class SpectrumEditScenario(Scenario):
             models = {}
             counter = [0]
             m = self.new_spectrum(rng, -1, 'S0', events, models, force={'n': 11, 'uniform': j % 2 == 0, 'unit': ['nm', 'um'][j % 2],
-                                                                      'linear': j < 3})
+                                                                      'linear': j < 3, 'shared': j % 3 == 0})
             w = m.wave
             ref = '@S0'
             # every bin option combination, on sample points and strictly inside
@@ -762,6 +785,9 @@ class SpectrumEditScenario(Scenario):
                     it.probe('check:integrate_' + name)
                     if not out.value[name]:
                         it.violate('C15.integrate', {'what': name}, out.value[name + '_detail'], i)
+            if fn == 'Spectrum' and out.ok and ev['id'].endswith('_twin'):
+                it.probe('shared_buffers')
+                it.fault('alias')
             if fn == 'Spectrum' and out.ok:
                 w = np.asarray(out.value.wave, dtype=float)
                 if w.size > 2 and not np.allclose(np.diff(w), np.diff(w)[0], rtol=1e-9, atol=0):
